@@ -31,7 +31,9 @@ def renderOpt (k : Kind) : Option (Operand Val) → String
 
 def runC03 (fields : List String) (obs : String) : String × String × String :=
   match fields with
-  | [_, kn, mt, s1t, s2t] =>
+  -- an optional sixth field says how the selectors are written (in place or through variables): the
+  -- value of the read does not depend on it
+  | _ :: kn :: mt :: s1t :: s2t :: _ =>
     match kindOfName kn with
     | none => ("bad-case", "bad-case", "-")
     | some k =>
